@@ -539,6 +539,12 @@ func (c *Ctx) ruleStep(a *protoAnchors) {
 
 	paths := c.enum(rule, T, PathOpts{Inline: inlineSmall()})
 	rows := map[string]bool{}
+	var childHdr *ssa.BasicBlock
+	eachInstr(T, func(in ssa.Instruction) {
+		if ci, ok := in.(ssa.CallInstruction); ok && ci.Common().StaticCallee() == T && childHdr == nil {
+			childHdr = innermostHeader(in.Block())
+		}
+	})
 	for _, pa := range paths {
 		if _, ok := pa.End.(*ssa.Return); !ok {
 			continue
@@ -564,6 +570,20 @@ func (c *Ctx) ruleStep(a *protoAnchors) {
 			continue
 		}
 		// (zero-iteration paths of the child loop with successors present are infeasible in reality: len != 0)
+		// must-pass-through: a path on which the successors are due reaches the successor loop —
+		// no other test (context state, node kind, ...) may end the traversal between two nodes
+		if should && childHdr != nil {
+			reached := false
+			for _, b := range pa.Blocks {
+				if b == childHdr {
+					reached = true
+				}
+			}
+			if !reached {
+				r.Bad(rule, "traverse:children-due", p.InstrPos(pa.End), "the node returned an event and no error and has successors, yet this path ends the traversal without reaching the loop that starts them: "+p.PathSummary(pa))
+				continue
+			}
+		}
 		for _, s := range starts {
 			ar := s.In.(ssa.CallInstruction).Common().Args
 			stb := pa.TermsAt(s)
